@@ -153,8 +153,19 @@ def worker_main(argv):
 
     if a.replay:
         rp = json.load(open(a.replay))
-        faulthandler.dump_traceback_later(300, exit=True)
+        faulthandler.dump_traceback_later(900, exit=True)
         try:
+            if a.digest_only and rp.get('history'):
+                # the violation needs what earlier sessions left behind in this process: re-run the lane's history first
+                hst = rp['history']
+                for idx in hst['indices']:
+                    try:
+                        execute_guarded(prop, prop.generate(run_seed(hst['base_seed'], a.prop, idx), hst['tier'], idx), 120)
+                    except Exception:
+                        pass
+                r = execute_guarded(prop, rp['original_scenario'], 120)
+                emit({'type': 'replay', 'violations': r['violations'], 'digest': r.get('digest'), 'with_history': True})
+                return 0
             r = execute_guarded(prop, rp['scenario'], 120)
             emit({'type': 'replay', 'violations': r['violations'], 'digest': r.get('digest')})
         except RunTimeout:
@@ -173,6 +184,7 @@ def worker_main(argv):
     idx = a.lane
     pos = 0
     seen_keys = set()
+    executed = []
     while True:
         if indices is not None:
             if pos >= len(indices):
@@ -197,6 +209,8 @@ def worker_main(argv):
             emit({'type': 'harness-error', 'index': idx, 'seed': seed, 'what': traceback.format_exc()})
             return 2
         faulthandler.cancel_dump_traceback_later()
+        history = list(executed)
+        executed.append(idx)
         if a.digest_only:
             emit({'type': 'digest', 'index': idx, 'digest': r.get('digest'), 'canon': r.get('canon')})
             if indices is None:
@@ -234,7 +248,8 @@ def worker_main(argv):
                     v_out = v
                 emit({'type': 'violation', 'index': idx, 'seed': seed, 'key': k, 'violation': v_out,
                       'scenario': small, 'minimised_from': {f: len(sc.get(f, [])) for f in ('intents', 'faults')},
-                      'hashseed': os.environ.get('PYTHONHASHSEED')})
+                      'hashseed': os.environ.get('PYTHONHASHSEED'), 'original_scenario': sc, 'original_violation': v,
+                      'history': {'indices': history, 'base_seed': a.seed, 'tier': a.tier}})
             if len(seen_keys) >= (1 if a.tier == 'quick' else 3):
                 break
         if indices is None:
@@ -311,8 +326,9 @@ def check_main(argv):
 
     if a.replay:
         rp = json.load(open(a.replay))
-        p = spawn(pid, ['--replay', a.replay, '--seed', '0'], rp.get('hashseed', 0), repo)
-        outs, errors = collect([p], 600)
+        p = spawn(pid, ['--replay', a.replay, '--seed', '0'] + (['--digest-only'] if rp.get('needs_process_history') else []),
+                  rp.get('hashseed', 0), repo)
+        outs, errors = collect([p], 1800)
         if errors:
             print('HARNESS-ERROR ' + '; '.join(errors))
             return 2
@@ -433,11 +449,23 @@ def check_main(argv):
         p = spawn(pid, ['--replay', path, '--seed', '0'], rp['hashseed'], repo)
         routs, rerrs = collect([p], 600)
         keys = [vkey(x) for r in (routs[0] if routs else []) if r.get('type') == 'replay' for x in r['violations']]
+        note = ''
+        if not rerrs and v['key'] not in keys and v.get('history', {}).get('indices'):
+            # not reproducible from a fresh process: does it need the state earlier sessions left behind in the process?
+            rp['history'] = v['history']
+            rp['original_scenario'] = v['original_scenario']
+            rp['needs_process_history'] = True
+            json.dump(rp, open(path, 'w'), indent=1, default=str)
+            p = spawn(pid, ['--replay', path, '--seed', '0', '--digest-only'], rp['hashseed'], repo)
+            routs, rerrs = collect([p], 1800)
+            keys = [vkey(x) for r in (routs[0] if routs else []) if r.get('type') == 'replay' for x in r['violations']]
+            note = (' [needs process history: reproduces only after the %d earlier sessions of its worker; state leaks '
+                    'between sessions in one process]' % len(v['history']['indices']))
         if rerrs or v['key'] not in keys:
             errors.append('replay of %s did not reproduce %s (%s)' % (path, v['key'], rerrs or keys))
             continue
         print('VIOLATION property=%s replay=%s' % (pid, path))
-        print('  %s: %s' % (v['key'], str(v['violation'].get('detail'))[:1200]))
+        print('  %s: %s%s' % (v['key'], str(v['violation'].get('detail'))[:1200], note))
         status = 1
     for k, f in sorted(known_hit.items()):
         print('KNOWN-FINDING: property=%s %s' % (pid, f['what']))
